@@ -357,7 +357,11 @@ class Check:
         for kid, (k, _) in sorted(self.known_hits.items()):
             print("KNOWN-FINDING: property=%s %s: %s" % (self.prop, kid, k["description"]))
         seen = set()
-        for path, no_input, what in self.violations:
+        # a concrete failing input is the better replay: list those first; a broken obligation / correspondence for which
+        # no input was found is listed (with no-failing-input-found) only when no concrete input was found at all
+        concrete = [v for v in self.violations if not v[1]]
+        listed = concrete if concrete else self.violations
+        for path, no_input, what in listed:
             if len(seen) >= 5:
                 break
             seen.add(path)
